@@ -51,7 +51,7 @@ pub fn j_table(which: u64, leap: &LeapTable, out: &mut Local) {
             }
             _ => {
                 // the shipped IERS file through the file provider
-                let f = LeapSecondsFile::from_path("/repo/data/leap-seconds.list").map_err(|e| format!("{e}"))?;
+                let f = LeapSecondsFile::from_path(format!("{}/data/leap-seconds.list", crate::report::repo())).map_err(|e| format!("{e}"))?;
                 let got: Vec<(i64, i64, bool)> = f.clone().map(|l| (l.timestamp_tai_s as i64, l.delta_at as i64, l.announced_by_iers)).collect();
                 let want: Vec<(i64, i64, bool)> = leap.entries.iter().map(|(a, b)| (*a, *b, true)).collect();
                 if got != want {
@@ -239,7 +239,8 @@ pub struct Providers {
 }
 
 pub fn make_providers(leap: &LeapTable) -> Providers {
-    let dir = "/verif/target/scratch/c06";
+    let dir = format!("{}/target/scratch/c06", crate::report::verif());
+    let dir = dir.as_str();
     std::fs::create_dir_all(dir).expect("scratch dir");
     let mut files = vec![];
     let render = |entries: &[(i64, i64)], style: usize| -> String {
